@@ -171,6 +171,14 @@ def run(tier, seed):
             nontrivial.add(tuple(log))
         if fail:
             c.fail(fail, {"seed": s, "assignments": log})
+    import hidekey
+    hk = vlib.robust_map(hidekey.work, [0], chunk=1, timeout=240)[0]
+    if isinstance(hk, tuple) and hk and hk[0] in ("CRASH", "TIMEOUT", "PYEXC"):
+        c.fail("hide-key probe %s: %s" % (hk[0], str(hk[1])[:300]), {"probe": "hidekey", "outcome": hk[0]})
+    else:
+        c.cov["evaluations"] += hk[1]
+        for msg in hk[0][:20]:
+            c.fail(msg, {"probe": "hidekey", "what": msg})
     c.cov["distinct_nontrivial"] = len(nontrivial)
     c.cov["rule"] = ("sequences of 1-6 assignments on the nodes / attributes / parameters of a fixed document containing every node class; "
                      "parsed attributes get strings (plain, with markup, whitespace, empty), ints, Wikicode and Node values; validated attributes get "
@@ -184,6 +192,11 @@ def run(tier, seed):
 
 
 def replay(data):
+    if data["data"].get("probe") == "hidekey":
+        import hidekey
+        f, _n = hidekey.probe()
+        print("\n".join(f[:20]))
+        return 1 if f else 0
     r = one_sequence(data["data"]["seed"])
     print(r)
     return 1 if r[1] else 0
